@@ -19,6 +19,8 @@
 //   place i | tick dt | jump k | reset   one Chargecarrier on the nodes of the last graph
 //                        (settoNote / updateLifetime+updateSteps+updateOccupationtime /
 //                        jumpAccordingEvent); each prints the carrier's and the nodes' bookkeeping
+//   lifeload / liferun   the real KMCLifetime (LoadGraph, ReadLifetimeFile, RunVSSM) with the random
+//                        numbers scripted through the votca/tools/random.h shim in huffman_shim/
 //   marcus ...           Rate_Engine::Rate on constructed Segment/QMPair objects (the carrier
 //                        slots of the OTHER three carrier types are filled with decoy values)
 //   promote <raw> <k>    KMCCalculator::Promotetime(k) with the uniform variate scripted to raw
@@ -46,6 +48,9 @@
 #include "votca/xtp/segment.h"
 #include "votca/xtp/chargecarrier.h"
 #include "votca/xtp/topology.h"
+#include "calculators/kmclifetime.h"
+#include <fstream>
+#include <unistd.h>
 
 using namespace votca;
 using namespace votca::xtp;
@@ -106,6 +111,100 @@ long index_of(const GNode& node, const GLink* l) {
   const std::vector<GLink>& ev = node.Events();
   if (ev.empty() || l < ev.data() || l >= ev.data() + ev.size()) return -1;
   return long(l - ev.data());
+}
+
+// graph description shared by the graph / lifeload / liferun commands:
+//   c kT Fx Fy Fz inj ign u J0 n {type E}*n np {a b Rx Ry Rz jm}*np
+struct GraphIn {
+  std::string c, inj, ign;
+  double kT = 0, F[3] = {0, 0, 0}, u = 0, J0 = 0;
+  long n = 0, np = 0;
+  std::vector<std::string> types;
+  std::vector<double> E;
+};
+std::unique_ptr<Topology> read_graph(std::istringstream& in, GraphIn& g) {
+  in >> g.c >> g.kT >> g.F[0] >> g.F[1] >> g.F[2] >> g.inj >> g.ign >> g.u >> g.J0 >> g.n;
+  QMStateType st = carrier(g.c);
+  std::unique_ptr<Topology> top(new Topology());
+  top->setBox(Eigen::Matrix3d::Identity() * 100.0);
+  g.E.resize(g.n);
+  g.types.resize(g.n);
+  for (long i = 0; i < g.n; ++i) {
+    in >> g.types[i] >> g.E[i];
+    top->AddSegment(g.types[i]);
+  }
+  for (long i = 0; i < g.n; ++i) {
+    Segment& sg = top->getSegment(i);
+    sg.setEMpoles(st, g.E[i]);
+    sg.setU_nX_nN(g.u, st);
+    sg.setU_xN_xX(g.u, st);
+  }
+  in >> g.np;
+  for (long k = 0; k < g.np; ++k) {
+    long a, b;
+    double R[3], jm;
+    in >> a >> b >> R[0] >> R[1] >> R[2] >> jm;
+    QMPair& pr = top->NBList().Add(top->getSegment(a), top->getSegment(b),
+                                   Eigen::Vector3d(R[0], R[1], R[2]));
+    pr.setJeff2(jm * g.J0, st);
+  }
+  if (!in) throw std::runtime_error("bad graph description");
+  return top;
+}
+
+void print_nodes(const std::vector<GNode>& nodes) {
+  for (const GNode& nd : nodes) {
+    std::cout << "node " << nd.getId() << " inj " << (nd.isInjectable() ? 1 : 0) << " esc "
+              << nd.getEscapeRate() << " tree " << (nd.hTree.treeIsMade ? 1 : 0) << " nev "
+              << nd.Events().size();
+    for (const GLink& l : nd.Events()) {
+      std::cout << " " << (l.isDecayEvent() ? -1 : l.getDestination()->getId()) << " "
+                << l.getRate() << " " << l.getDeltaR().x() << " " << l.getDeltaR().y() << " "
+                << l.getDeltaR().z();
+    }
+    std::cout << std::endl;
+  }
+}
+
+// the real KMCLifetime (calculators/kmclifetime.cc) prepared without option parsing
+void setup_lifetime(KMCLifetime& k, const GraphIn& g, long ncarriers, unsigned long insertions,
+                    const std::string& base) {
+  k.carriertype_ = carrier(g.c);
+  k.temperature_ = g.kT;
+  k.field_ = Eigen::Vector3d(g.F[0], g.F[1], g.F[2]);
+  k.injection_name_ = g.inj;
+  k.ignoresegments_ = g.ign == "-" ? std::string("") : g.ign;
+  k.injectionmethod_ = "random";
+  k.ratefile_ = "/dev/null";
+  k.trajectoryfile_ = base + ".traj";
+  k.occfile_ = base + ".occ";
+  k.lifetimefile_ = base + ".xml";
+  k.numberofcarriers_ = ncarriers;
+  k.insertions_ = insertions;
+  k.maxrealtime_ = 1.0;
+  k.do_carrierenergy_ = false;
+  k.seed_ = 1;
+  k.log_.setReportLevel(Log::error);
+}
+
+// findHoppingDestination on a legal p must select an event; an exception of the real code is a
+// RESULT (-3 = "selects no event, threw"), the first message is kept for the report
+std::string g_find_exc;
+long find_index(const GNode& node, double p) {
+  try {
+    return index_of(node, node.findHoppingDestination(p));
+  } catch (const std::exception& e) {
+    if (g_find_exc.empty()) g_find_exc = e.what();
+    return -3;
+  }
+}
+void report_find_exc() {
+  if (!g_find_exc.empty()) {
+    std::string m = g_find_exc;
+    for (char& ch : m) if (ch == '\n') ch = ' ';
+    std::cout << "findexc " << m << std::endl;
+    g_find_exc.clear();
+  }
 }
 
 }  // namespace
@@ -177,9 +276,10 @@ int main() {
           double p;
           in >> p;
           if (!in) throw std::runtime_error("bad probe command");
-          std::cout << " " << index_of(*node, node->findHoppingDestination(p));
+          std::cout << " " << find_index(*node, p);
         }
         std::cout << std::endl;
+        report_find_exc();
       } else if (cmd == "cells") {
         // numerators over the tree's own normalisation (huffmanTree::sum_of_values); that the
         // escape rate equals the sum is checked separately
@@ -195,57 +295,35 @@ int main() {
         t.erase(std::unique(t.begin(), t.end()), t.end());
         bool total = true;
         for (double p : t) {
-          if (index_of(*node, node->findHoppingDestination(p)) < 0) total = false;
+          if (find_index(*node, p) < 0) total = false;
         }
         std::cout << "cells " << (t.size() - 1) << " total " << (total ? 1 : 0) << " inrange "
                   << (inrange ? 1 : 0);
         for (std::size_t k = 0; k + 1 < t.size(); ++k) {
           double mid = 0.5 * (t[k] + t[k + 1]);
-          long ev = index_of(*node, node->findHoppingDestination(mid));
+          long ev = find_index(*node, mid);
           // one quarter / three quarters must agree with the midpoint (constant on the cell);
           // cells only a few ulp wide (two thresholds that coincide up to rounding) have no
           // distinct interior points and carry no measure
           double q1 = t[k] + 0.25 * (t[k + 1] - t[k]);
           double q3 = t[k] + 0.75 * (t[k + 1] - t[k]);
           if (q1 > t[k] && q1 < mid && q3 > mid && q3 < t[k + 1]) {
-            long e1 = index_of(*node, node->findHoppingDestination(q1));
-            long e3 = index_of(*node, node->findHoppingDestination(q3));
+            long e1 = find_index(*node, q1);
+            long e3 = find_index(*node, q3);
             if (e1 != ev || e3 != ev) ev = -2;
           }
           std::cout << " " << ev << " " << std::llround(t[k] * S) << " " << std::llround(t[k + 1] * S);
         }
         std::cout << std::endl;
+        report_find_exc();
       } else if (cmd == "graph") {
-        // graph c kT Fx Fy Fz inj ign u J0 n {type E}*n np {a b Rx Ry Rz jm}*np
-        std::string c, inj, ign;
-        double kT, F[3], u, J0;
-        long n, np;
-        in >> c >> kT >> F[0] >> F[1] >> F[2] >> inj >> ign >> u >> J0 >> n;
-        QMStateType st = carrier(c);
-        top.reset(new Topology());
-        top->setBox(Eigen::Matrix3d::Identity() * 100.0);
-        std::vector<double> E(n);
-        std::vector<std::string> types(n);
-        for (long i = 0; i < n; ++i) {
-          in >> types[i] >> E[i];
-          top->AddSegment(types[i]);
-        }
-        for (long i = 0; i < n; ++i) {
-          Segment& sg = top->getSegment(i);
-          sg.setEMpoles(st, E[i]);
-          sg.setU_nX_nN(u, st);
-          sg.setU_xN_xX(u, st);
-        }
-        in >> np;
-        for (long k = 0; k < np; ++k) {
-          long a, b;
-          double R[3], jm;
-          in >> a >> b >> R[0] >> R[1] >> R[2] >> jm;
-          QMPair& pr = top->NBList().Add(top->getSegment(a), top->getSegment(b),
-                                         Eigen::Vector3d(R[0], R[1], R[2]));
-          pr.setJeff2(jm * J0, st);
-        }
-        if (!in) throw std::runtime_error("bad graph command");
+        GraphIn g;
+        top = read_graph(in, g);
+        QMStateType st = carrier(g.c);
+        const double kT = g.kT;
+        const double* F = g.F;
+        const long np = g.np;
+        const std::string &inj = g.inj, &ign = g.ign;
         Rate_Engine eng(kT, Eigen::Vector3d(F[0], F[1], F[2]));
         for (long k = 0; k < np; ++k) {
           Rate_Engine::PairRates pr = eng.Rate(*top->NBList()[k], st);
@@ -260,17 +338,7 @@ int main() {
         } catch (const std::exception& e) {
           failed = e.what();
         }
-        for (const GNode& nd : gk->nodes()) {
-          std::cout << "node " << nd.getId() << " inj " << (nd.isInjectable() ? 1 : 0) << " esc "
-                    << nd.getEscapeRate() << " tree " << (nd.hTree.treeIsMade ? 1 : 0) << " nev "
-                    << nd.Events().size();
-          for (const GLink& l : nd.Events()) {
-            std::cout << " " << (l.isDecayEvent() ? -1 : l.getDestination()->getId()) << " "
-                      << l.getRate() << " " << l.getDeltaR().x() << " " << l.getDeltaR().y() << " "
-                      << l.getDeltaR().z();
-          }
-          std::cout << std::endl;
-        }
+        print_nodes(gk->nodes());
         if (!failed.empty()) std::cout << "loadfailed " << failed << std::endl;
         std::cout << "loaded " << gk->nodes().size() << std::endl;
       } else if (cmd == "place" || cmd == "tick" || cmd == "jump" || cmd == "reset") {
@@ -300,6 +368,92 @@ int main() {
         for (const GNode& nd : gk->nodes())
           std::cout << " " << (nd.isOccupied() ? 1 : 0) << " " << nd.OccupationTime();
         std::cout << std::endl;
+      } else if (cmd == "lifeload" || cmd == "liferun") {
+        // lifeload <graph> {lifetime}*n
+        //   real KMCLifetime: LoadGraph + ReadLifetimeFile; prints the nodes, for every node the
+        //   partition of [0,1] by its tree (event, lo, hi) and the range configured for site draws
+        // liferun <graph> {lifetime}*n ncarriers insertions nscript {i v | u r}*nscript
+        //   the same, then the real RunVSSM with the scripted random numbers; prints the trajectory
+        //   file, the nodes' occupation times and how much of the script was consumed
+        GraphIn g;
+        std::unique_ptr<Topology> ltop = read_graph(in, g);
+        std::vector<double> lifetimes(g.n);
+        for (double& x : lifetimes) in >> x;
+        long ncar = 1, nscript = 0;
+        unsigned long ins = 1;
+        tools::VerifRandomScript& script = tools::verif_random_script();
+        script = tools::VerifRandomScript();
+        if (cmd == "liferun") {
+          in >> ncar >> ins >> nscript;
+          for (long k = 0; k < nscript; ++k) {
+            std::string kind;
+            double v;
+            in >> kind >> v;
+            script.q.emplace_back(kind[0], v);
+          }
+        }
+        if (!in) throw std::runtime_error("bad life command");
+        std::string base = "/tmp/drv_huffman_" + std::to_string(getpid());
+        {
+          std::ofstream xml(base + ".xml");
+          xml.precision(17);
+          xml << "<lifetimes>\n";
+          for (long i = 0; i < g.n; ++i) xml << "<site id=\"" << i << "\">" << lifetimes[i] << "</site>\n";
+          xml << "</lifetimes>\n";
+        }
+        KMCLifetime life;
+        setup_lifetime(life, g, ncar, ins, base);
+        std::string failed;
+        std::ostringstream sink;
+        std::streambuf* old = std::cout.rdbuf(sink.rdbuf());   // progress bar / log of the real code
+        try {
+          life.LoadGraph(*ltop);
+          life.ReadLifetimeFile(base + ".xml");
+          if (cmd == "liferun") {
+            script.active = true;
+            life.RunVSSM();
+          }
+        } catch (const std::exception& e) {
+          failed = e.what();
+        }
+        script.active = false;
+        std::cout.rdbuf(old);
+        std::cout << "maxint " << script.maxint << " nodes " << life.nodes_.size() << std::endl;
+        print_nodes(life.nodes_);
+        if (cmd == "lifeload") {
+          for (const GNode& nd : life.nodes_) {
+            std::vector<double> t{0.0, 1.0};
+            for (const auto& hn : nd.hTree.htree)
+              if (hn.probability > 0.0 && hn.probability < 1.0) t.push_back(hn.probability);
+            std::sort(t.begin(), t.end());
+            t.erase(std::unique(t.begin(), t.end()), t.end());
+            std::cout << "part " << nd.getId() << " " << (t.size() - 1);
+            for (std::size_t k = 0; k + 1 < t.size(); ++k)
+              std::cout << " " << find_index(nd, 0.5 * (t[k] + t[k + 1])) << " " << t[k] << " " << t[k + 1];
+            std::cout << std::endl;
+          }
+          report_find_exc();
+        } else {
+          std::ifstream tr(base + ".traj");
+          std::string l;
+          while (std::getline(tr, l)) {
+            if (!l.empty() && l[0] != '#') std::cout << "traj " << l << std::endl;
+          }
+          std::cout << "occt";
+          for (const GNode& nd : life.nodes_) std::cout << " " << nd.OccupationTime();
+          std::cout << std::endl;
+          std::cout << "carriers";
+          for (Chargecarrier& cc : life.carriers_)
+            std::cout << " " << cc.getId() << " " << (cc.hasNode() ? cc.getCurrentNodeId() : -1) << " "
+                      << cc.getLifetime() << " " << cc.getSteps();
+          std::cout << std::endl;
+          std::cout << "script consumed " << script.consumed << " left " << script.q.size() << std::endl;
+        }
+        if (!failed.empty()) {
+          for (char& ch : failed) if (ch == '\n') ch = ' ';
+          std::cout << "runfailed " << failed << std::endl;
+        }
+        for (const char* ext : {".xml", ".traj", ".occ"}) std::remove((base + ext).c_str());
       } else if (cmd == "marcus") {
         // marcus c kT Fx Fy Fz Rx Ry Rz em1 ux1 n1 x1 em2 ux2 n2 x2 lo J2   (Hartree, bohr)
         std::string c;
@@ -348,7 +502,8 @@ int main() {
         kmc.script(raw);
         const GLink& l = kmc.choose(*node);
         std::cout << "sel " << index_of(*node, &l) << " direct "
-                  << index_of(*node, node->findHoppingDestination(1.0 - raw)) << std::endl;
+                  << find_index(*node, 1.0 - raw) << std::endl;
+        report_find_exc();
       } else {
         std::cout << "err unknown command" << std::endl;
       }
